@@ -204,7 +204,7 @@ func (c *Ctx) ord10() {
 			if e.Callee != nil && (wire[e.Callee] || e.Callee == start && start != nil) {
 				return true
 			}
-			if e.Callee != nil && (e.Callee.Name() == "submitPersisted" || e.Callee.Name() == "newClient") {
+			if e.Callee != nil && (e.Callee.Name() == "submitPersisted" || e.Callee.Name() == "newClient") && !c.isNewHelper(e.Callee) {
 				return true
 			}
 			if op := persistenceOp(e); op == "Save" || op == "Delete" {
